@@ -53,8 +53,10 @@ AColView == On("ColView") /\ \E t \in LiveTab(S) : \E i \in 1..Len(S.cols[t]) :
 ADropTable == On("DropTable") /\ \E t \in LiveTab(S) : Do(DropTable(S, t), Act("DropTable", t, 0, 0, 0, <<>>, NoName, ""))
 AReadFpT == On("ReadFpT") /\ \E t \in LiveTab(S) : Do(ReadFpT(S, t), Act("ReadFpT", t, 0, 0, 0, <<>>, NoName, ""))
 ARename == On("Rename") /\ \E o \in LiveVec(S), nm \in NameSet : nm # S.name[o] /\ Do(Rename(S, o, nm), Act("Rename", o, 0, 0, 0, <<>>, nm, ""))
-ARenameColumn == On("RenameColumn") /\ \E t \in LiveTab(S), nm \in NameSet \ {NoName} : \E i \in 1..Len(S.cols[t]) :
-             /\ S.name[S.cols[t][i]] # NoName /\ S.name[S.cols[t][i]] # nm
+(* rename_column(old, new): the first column carrying `old`; old and new may both be None (an unnamed column gets a name, a
+   named one loses it) *)
+ARenameColumn == On("RenameColumn") /\ \E t \in LiveTab(S), nm \in NameSet : \E i \in 1..Len(S.cols[t]) :
+             /\ S.name[S.cols[t][i]] # nm
              /\ \A j \in 1..(i - 1) : S.name[S.cols[t][j]] # S.name[S.cols[t][i]]
              /\ Do(RenameColumn(S, t, i, nm), Act("RenameColumn", t, i, 0, 0, <<>>, nm, ""))
 ALookup == On("Lookup") /\ \E t \in LiveTab(S), how \in {"getattr", "row"} :
